@@ -2,6 +2,7 @@
 what the property demands; see tools/harness/props/c07.py for the wire formats. -/
 import PdfVerif.Spec.CIDFont
 import PdfVerif.Model.TrueTypeCmap
+import PdfVerif.Model.CMapLex
 
 open PdfVerif PdfVerif.CIDFont PdfVerif.CIDFontSpec
 
@@ -195,6 +196,13 @@ def step (st : DState) (line : String) : DState × String :=
   | ["utf16", h] =>
     (st, match bytesOfHex h with
       | some b => let cs := utf16Ignore b; "U " ++ (if cs.isEmpty then "-" else ".".intercalate (cs.map hexNat))
+      | none => "bad-op")
+  | ["tub", h] =>
+    (st, match (if h == "-" then some [] else bytesOfHex h) with
+      | some data => match parseToUnicodeBytes data with
+        | some (.ok m) => showUMap m
+        | some (.error e) => showErr e
+        | none => "outside"
       | none => "bad-op")
   | "tu" :: ws =>
     (st, match ws.mapM parseTok with
